@@ -4,6 +4,7 @@ import Oracle.Lib
 import Oracle.Equal
 import Oracle.Prec
 import Oracle.Exhaust
+import Oracle.TypeExpr
 open Oracle
 
 /-- a line is `(<stream> payload...)`; the answer is one S-expression -/
@@ -13,6 +14,7 @@ def handle (line : String) : String :=
     match stream with
     | "echo" => toString (Sx.list payload)
     | "slice.hist" => toString (Oracle.Slice.handle payload)
+    | "c15.type" => toString (Oracle.TypeExpr.handle payload)
     | "c09.match" => toString (Oracle.Exhaust.handle payload)
     | "c08.chain" => toString (Oracle.Prec.handle payload)
     | "eq.pair" => toString (Oracle.Equal.handle payload)
